@@ -4,7 +4,7 @@
    unrecovered arithmetic). Proofs: proofs/PipelineProofs.v, proofs/ReadPathProofs.v. *)
 From Coq Require Import List ZArith Bool.
 From Qryn Require Import model.ReaderGoroutines gen.GenGoroutinesReader model.Pipeline model.ReadPath model.ReadFwd
-  proofs.PipelineProofs proofs.ReadPathProofs proofs.ReadFwdProofs.
+  model.ReadProm proofs.PipelineProofs proofs.ReadPathProofs proofs.ReadFwdProofs proofs.ReadPromProofs.
 Import ListNotations.
 Open Scope Z_scope.
 
@@ -224,3 +224,21 @@ Print Assumptions traceql_length_check_needed.
 Theorem read_statements_bounded : forall q : frequest, 0 <= snd (fwd_outcome q) <= stmt_bound q.
 Proof. exact fwd_statements_bounded. Qed.
 Print Assumptions read_statements_bounded.
+
+(* Prometheus /api/v1/query and /api/v1/query_range (fix 234ea6b). checkSubquerySteps adds the query window and the ranges
+   of nested subqueries in int64 nanoseconds, where a sum can wrap around; still, for EVERY expression tree the parser can
+   produce (ranges in (0, 2^63), steps in [0, 2^63)) and every window, a query that passes the check makes the engine create
+   only subquery evaluators of at most 11,000 steps (exact arithmetic): the sum at every enclosing subquery was checked
+   too, so a wrapped sum shows up as a negative one. *)
+Theorem subquery_check_sound_under_wraparound : forall (e : pexpr) (window : Z),
+  - two63 <= window < two63 -> pwf e = true -> sq_ok window e = true ->
+  forallb eval_bounded (evals window e) = true.
+Proof. exact sq_ok_sound. Qed.
+Print Assumptions subquery_check_sound_under_wraparound.
+
+(* For every request the two Prometheus controllers hand to the PromQL engine: positive step, at most 11,000 steps of the
+   query itself and of every subquery evaluator -- the engine reserves one point per step and series before it counts a
+   sample (the recorded request up[30d:1ms] reserved 2.6e9 points: out of memory, process exit). *)
+Theorem prom_accepted_requests_bounded : forall r : prequest, prwf r = true -> engine_bounded (prom_outcome r).
+Proof. exact prom_accepted_bounded. Qed.
+Print Assumptions prom_accepted_requests_bounded.
